@@ -21,15 +21,16 @@ Local Open Scope list_scope.
    ID_Start:  U+00AA U+00B5 U+00BA U+00C0-00D6 U+00D8-00F6 U+00F8-02C1 (Latin-1, Latin Extended, IPA, modifiers)
               U+0370-0374 U+0376-0377 U+037B-037D U+037F U+0386 U+0388-038A U+038C U+038E-03A1 U+03A3-03F5 U+03F7-0481 (Greek, Cyrillic)
               U+048A-052F (Cyrillic) U+0620-064A (Arabic letters) U+0904-0939 (Devanagari letters)
-              U+2160-2188 (Nl: Roman numerals) U+3041-3096 (Hiragana) U+30A1-30FA (Katakana) U+4E00-9FFF (CJK) U+AC00-D7A3 (Hangul)
-   ID_Continue adds: U+00B7, U+0300-036F (combining marks), U+0660-0669, U+0966-096F, U+FF10-FF19 (Nd digits of other scripts) *)
+              U+2160-2188 (Nl: Roman numerals) U+3041-3096 U+309D-309F (Hiragana) U+30A1-30FA U+30FC-30FF (Katakana) U+4E00-9FFF (CJK) U+AC00-D7A3 (Hangul)
+   ID_Continue adds: U+00B7, U+0300-036F (combining marks), U+0660-0669, U+0966-096F, U+FF10-FF19 (Nd digits of other scripts),
+                      U+093E-094C (Devanagari vowel signs) *)
 Definition bN (c : ascii) : N := N_of_ascii c.
 Definition in_ranges (cp : N) (l : list (N * N)) : bool := existsb (fun r => (fst r <=? cp)%N && (cp <=? snd r)%N) l.
 Definition id_start_ranges : list (N * N) :=
   [(170, 170); (181, 181); (186, 186); (192, 214); (216, 246); (248, 705);
    (880, 884); (886, 887); (891, 893); (895, 895); (902, 902); (904, 906); (908, 908); (910, 929); (931, 1013); (1015, 1153);
-   (1162, 1327); (1568, 1610); (2308, 2361); (8544, 8584); (12353, 12438); (12449, 12538); (19968, 40959); (44032, 55203)]%N.
-Definition id_continue_extra : list (N * N) := [(183, 183); (768, 879); (1632, 1641); (2406, 2415); (65296, 65305)]%N.
+   (1162, 1327); (1568, 1610); (2308, 2361); (8544, 8584); (12353, 12438); (12445, 12447); (12449, 12538); (12540, 12543); (19968, 40959); (44032, 55203)]%N.
+Definition id_continue_extra : list (N * N) := [(183, 183); (768, 879); (1632, 1641); (2366, 2380); (2406, 2415); (65296, 65305)]%N.
 Definition id_start_cp (cp : N) : bool := in_ranges cp id_start_ranges.
 Definition id_continue_cp (cp : N) : bool := in_ranges cp id_start_ranges || in_ranges cp id_continue_extra.
 Definition is_cont (c : ascii) : bool := ((128 <=? bN c) && (bN c <=? 191))%N.
